@@ -25,12 +25,13 @@ import (
 )
 
 // The parent store every view is cut out of:
-//   n              file  "CANARY-top-n"     (same name as nodes inside the views)
-//   outdir/o.txt   file  "CANARY-o"
-//   v/             root of depth-1 views
-//   v/n/           dir
-//   v/n/n          file  "in-vnn"
-//   v/x            file  "in-vx"  (outside for depth-2 views rooted at v/n)
+//
+//	n              file  "CANARY-top-n"     (same name as nodes inside the views)
+//	outdir/o.txt   file  "CANARY-o"
+//	v/             root of depth-1 views
+//	v/n/           dir
+//	v/n/n          file  "in-vnn"
+//	v/x            file  "in-vx"  (outside for depth-2 views rooted at v/n)
 var storeFiles = map[string]string{"n": "CANARY-top-n", "outdir/o.txt": "CANARY-o", "v/n/n": "in-vnn", "v/x": "in-vx"}
 
 type viewKind struct {
@@ -291,16 +292,21 @@ func benignSrc(kind string) string {
 }
 
 type witness struct {
-	View string    `json:"view"`
-	Op   treefs.Op `json:"op"`
-	Sub  string    `json:"filespace_arg,omitempty"`
+	View    string    `json:"view"`
+	Op      treefs.Op `json:"op"`
+	Sub     string    `json:"filespace_arg,omitempty"`
+	Prelude string    `json:"prelude,omitempty"`
 }
 
 type verdict struct{ kind, clause, detail string }
 
 // runCase executes one (view, op) case on a fresh store. sub != "" additionally derives a
 // child view with that (possibly escaping) argument first.
-func runCase(v viewKind, op treefs.Op, sub string) *verdict {
+// runCase with prelude != "" first issues a harmless operation through the SAME view object
+// (views may keep state: resolved paths, prepared directories, journals).
+func runCase(v viewKind, op treefs.Op, sub string) *verdict { return runCasePre(v, op, sub, "") }
+
+func runCasePre(v viewKind, op treefs.Op, sub string, prelude string) *verdict {
 	var out *verdict
 	res := fsx.RunSeq(func() {
 		e, cleanup, err := newEnv(v.Disk)
@@ -328,6 +334,16 @@ func runCase(v viewKind, op treefs.Op, sub string) *verdict {
 				parts = append(parts, "visible:"+outsideOf(flat, root))
 			}
 			return strings.Join(parts, "\n--\n")
+		}
+		switch prelude {
+		case "write":
+			fsx.Exec(view, treefs.Op{Kind: "WriteFile", P: "pre.txt", Data: "in-pre"})
+		case "list":
+			fsx.Exec(view, treefs.Op{Kind: "ReadDir", P: "."})
+			fsx.Exec(view, treefs.Op{Kind: "IsDir", P: "n"})
+		case "mkdir-remove":
+			fsx.Exec(view, treefs.Op{Kind: "MkdirAll", P: "pre/dir"})
+			fsx.Exec(view, treefs.Op{Kind: "RemoveAll", P: "pre"})
 		}
 		before := snap()
 		target := view
@@ -376,6 +392,11 @@ func runCase(v viewKind, op treefs.Op, sub string) *verdict {
 				return // content oracle only for direct views (the derived view's root is unknown if it was clamped)
 			}
 			model := insideModel(inRoot)
+			if prelude == "write" {
+				if ep := treefs.Apply(model, treefs.Op{Kind: "WriteFile", P: "pre.txt", Data: "in-pre"}); ep.After != nil {
+					model = ep.After
+				}
+			}
 			e2 := treefs.Apply(model, treefs.Op{Kind: op.Kind, P: op.P, Q: op.Q})
 			switch op.Kind {
 			case "ReadFile", "Reader":
@@ -522,39 +543,45 @@ func run(c *fw.Ctx) {
 			}
 			// the Filespace method itself with the path as argument, followed by a write and a read
 			cases = append(cases, cs{treefs.Op{Kind: "WriteFile", P: "evil", Data: "EVIL-sub"}, p}, cs{treefs.Op{Kind: "ReadDir", P: "."}, p}, cs{treefs.Op{Kind: "RemoveAll", P: "n"}, p})
+			preludes := []string{""}
+			if esc := pathClass(p); esc != "stays-inside" {
+				preludes = []string{"", "write", "list", "mkdir-remove"}
+			}
 			for _, k := range cases {
-				c.R.Evaluations++
-				vd := runCase(v, k.op, k.sub)
-				if _, esc := treefs.Norm(p); esc {
-					c.Count("escaping_path_cases", 1)
+				for _, pre := range preludes {
+					c.R.Evaluations++
+					vd := runCasePre(v, k.op, k.sub, pre)
+					if _, esc := treefs.Norm(p); esc {
+						c.Count("escaping_path_cases", 1)
+					}
+					if vd == nil {
+						continue
+					}
+					if vd.kind == "harness" {
+						c.Infra("%s: %s", v.Name, vd.detail)
+						return
+					}
+					arg := "path-arg"
+					if k.sub != "" {
+						arg = "via-Filespace(arg)"
+					} else if k.op.Q == p && k.op.P != p {
+						arg = "copy-destination"
+					} else if k.op.Q != "" {
+						arg = "copy-source"
+					}
+					sg := fmt.Sprintf("C03/%s/%s/%s/%s/%s", vd.kind, v.Name, k.op.Kind, arg, pathClass(p))
+					if c.Violated(sg) {
+						c.Violate(&fw.Violation{Signature: sg})
+						continue
+					}
+					if v2 := runCasePre(v, k.op, k.sub, pre); v2 == nil || v2.kind != vd.kind {
+						c.Count("unstable_candidates", 1)
+						continue
+					}
+					c.Violate(&fw.Violation{Property: "C03", Clause: vd.clause, Signature: sg,
+						Detail:  fmt.Sprintf("view kind %s (root %s of the store)\nprelude %q; Filespace arg %q; op %s\n%s", v.Name, v.Root, pre, k.sub, fsx.OpString(k.op), vd.detail),
+						Witness: fw.JSON(witness{View: v.Name, Op: k.op, Sub: k.sub, Prelude: pre})})
 				}
-				if vd == nil {
-					continue
-				}
-				if vd.kind == "harness" {
-					c.Infra("%s: %s", v.Name, vd.detail)
-					return
-				}
-				arg := "path-arg"
-				if k.sub != "" {
-					arg = "via-Filespace(arg)"
-				} else if k.op.Q == p && k.op.P != p {
-					arg = "copy-destination"
-				} else if k.op.Q != "" {
-					arg = "copy-source"
-				}
-				sg := fmt.Sprintf("C03/%s/%s/%s/%s/%s", vd.kind, v.Name, k.op.Kind, arg, pathClass(p))
-				if c.Violated(sg) {
-					c.Violate(&fw.Violation{Signature: sg})
-					continue
-				}
-				if v2 := runCase(v, k.op, k.sub); v2 == nil || v2.kind != vd.kind {
-					c.Count("unstable_candidates", 1)
-					continue
-				}
-				c.Violate(&fw.Violation{Property: "C03", Clause: vd.clause, Signature: sg,
-					Detail:  fmt.Sprintf("view kind %s (root %s of the store)\nFilespace arg %q; op %s\n%s", v.Name, v.Root, k.sub, fsx.OpString(k.op), vd.detail),
-					Witness: fw.JSON(witness{v.Name, k.op, k.sub})})
 			}
 			if item%4001 == 17 {
 				c.Sample(map[string]interface{}{"view": v.Name, "path": p, "ops": len(cases)})
@@ -571,7 +598,7 @@ func replay(w json.RawMessage) (*fw.Violation, error) {
 	}
 	for _, v := range views() {
 		if v.Name == wit.View {
-			vd := runCase(v, wit.Op, wit.Sub)
+			vd := runCasePre(v, wit.Op, wit.Sub, wit.Prelude)
 			if vd == nil {
 				return nil, nil
 			}
@@ -583,7 +610,7 @@ func replay(w json.RawMessage) (*fw.Violation, error) {
 
 func init() {
 	fw.Register(&fw.Check{ID: "C03", Level: "exploration",
-		Rule: "all path strings of <=3 (quick) / <=4 (thorough) segments over {n, '.', '..', ''} with and without leading '/', x all 16 operations (both arguments of the copy operations, and the path used as Filespace() argument followed by write/list/remove) x 21 view kinds (memory, disk, encrypted, read-only, sub-path, cache-backed; depth 1 and 2), each on a fresh store with canaries outside the view root; distinct = (view, op, path) cases, non-trivial = all (every case touches a populated store)",
-		Run: run, Replay: replay,
+		Rule: "all path strings of <=3 (quick) / <=4 (thorough) segments over {n, '.', '..', ''} with and without leading '/', x all 16 operations (both arguments of the copy operations, and the path used as Filespace() argument followed by write/list/remove) x 21 view kinds (memory, disk, encrypted, read-only, sub-path, cache-backed; depth 1 and 2), each on a fresh store with canaries outside the view root, climbing paths additionally after a harmless prelude (write / list / mkdir+remove) through the same view object; distinct = (view, op, path) cases, non-trivial = all (every case touches a populated store)",
+		Run:  run, Replay: replay,
 		Assumptions: []string{"segment bound as stated; the 'randomly beyond the bound' part of the quantifier is not claimed", "one store shape; the view root itself counts as inside", "a result is a leak when it returns content/listing/stat of a node outside the root (canary contents and names are unique)"}})
 }
